@@ -20,7 +20,7 @@ RULE = ("family x parameters x formula class (CNF, OPB) x graph representation (
 ASSUMPTIONS = ["vmon/tt.py truth tables (self-checked)", "object enumerators in this module, written from the docstrings",
                "variable names reported by the formula identify the atoms (p_{i,j}, e_{u,v}, ...)"]
 REQUIRED = ["exact_cases", "satisfiable_cases", "unsatisfiable_cases", "sampled_cases", "opb_cases", "cnf_cases",
-            "networkx_inputs", "refused_expected"] + ["family_" + f for f in
+            "networkx_inputs", "refused_expected", "graph_object_histories"] + ["family_" + f for f in
             ("php", "gphp", "bphp", "rphp", "count", "matching", "subsetcard", "cliquecoloring")]
 CASE_TIMEOUT = {"quick": 300, "thorough": 1800}
 
@@ -540,7 +540,10 @@ def workload(tier, seed):
             masks = [m for m in masks if bin(m).count("1") <= 22]
             for ch in chunks(masks, 50):
                 yield "matching", {"cls": cls, "n": 7, "masks": ch, "as_nx": False}
+        for (m_, n_) in ((2, 257), (2, 1025), (3, 600)) if quick else ((2, 257), (2, 513), (2, 1025), (2, 2049), (3, 600), (3, 1030), (2, 4097)):
+            yield "bphp_wide", {"cls": cls, "m": m_, "n": n_}
         for i in range(2 if quick else 16):
+            yield "history", {"cls": cls, "rseed": seed * 100 + i}
             yield "sampled", {"cls": cls, "rseed": seed * 100 + i}
             yield "sampled2", {"cls": cls, "rseed": seed * 100 + i}
 
@@ -734,3 +737,50 @@ def case_sampled2(ctx, cls, rseed):
                         load[e[1]] += 1
                 pool += perturb(r, t, x.values(), 2)
             sampled_compare(ctx, "subsetcard", desc, F, pool, preds, ("subsetcard-large", L, R, tuple(E), eq, cls))
+
+
+def case_history(ctx, cls, rseed):
+    """PerfectMatchingPrinciple on a Graph object that is edited between calls."""
+    K = S.formula_classes()[cls]
+    g = gens()
+    r = ctx.rng("c01hist", cls, rseed)
+    for i in range(12):
+        S.graph_history_check(ctx, "matching", "PerfectMatchingPrinciple[%s]" % cls,
+                              lambda G: g.PerfectMatchingPrinciple(G, formula_class=K), r, n=r.randint(4, 7))
+
+
+def case_bphp_wide(ctx, cls, m, n):
+    """BinaryPigeonholePrinciple with many holes (9-12 bits): pigeons sent to chosen holes against the principle."""
+    K = S.formula_classes()[cls]
+    g = gens()
+    r = ctx.rng("c01bphpwide", cls, m, n)
+    desc = "BinaryPigeonholePrinciple(%d,%d)[%s]" % (m, n, cls)
+    F, exc = S.build(ctx, "bphp", desc, g.BinaryPigeonholePrinciple, m, n, formula_class=K)
+    if F is None:
+        raised(ctx, "bphp", desc, exc)
+        return
+    fam_count(ctx, "bphp", cls)
+    at = S.decode(ctx, "bphp", desc, F)
+    if at is None:
+        return
+    v = at.get("v(#,#)", {})
+    bits = (n - 1).bit_length()
+    if len(v) != m * bits or F.number_of_variables() != m * bits:
+        ctx.violation("bphp:numvar", "%s has %d variables, expected %d" % (desc, F.number_of_variables(), m * bits))
+        return
+    special = sorted({0, 1, 2, 3, n - 2, n - 1, n, n + 1, (1 << bits) - 1, 1 << (bits - 1), 1024, 1025, 256, 257} | {r.randrange(1 << bits) for _ in range(6)})
+    special = [h for h in special if 0 <= h < (1 << bits)]
+    pool = []
+    for _ in range(60):
+        img = [r.choice(special) if r.random() < 0.7 else r.randrange(n) for _ in range(m)]
+        pool.append(img)
+        if m >= 2:
+            img2 = list(img)
+            img2[1] = img2[0] ^ 1                      # neighbouring codes 2t / 2t+1 are different holes
+            pool.append(img2)
+
+    def pred(t):
+        vals = [sum((1 << b) for b in range(bits) if v[(i, b)] in t) for i in range(1, m + 1)]
+        return all(x < n for x in vals) and len(set(vals)) == m
+    sampled_compare(ctx, "bphp", desc, F, [{v[(i + 1, b)] for i in range(m) for b in range(bits) if (img[i] >> b) & 1} for img in pool],
+                    pred, ("bphp-wide", m, n, cls))
